@@ -4,6 +4,7 @@ import (
 	"fmt"
 	"go/ast"
 	"go/types"
+	"strings"
 
 	"golang.org/x/tools/go/packages"
 )
@@ -43,6 +44,80 @@ func (e *Exec) tryInline(st *State, pkg *packages.Package, decl *ast.FuncDecl, s
 	return e.inline(st, pkg, decl, decl.Type, decl.Body, decl.Recv, sig, recv, args, full, x), true
 }
 
+func containsCall(x ast.Expr) bool {
+	found := false
+	ast.Inspect(x, func(n ast.Node) bool {
+		if _, ok := n.(*ast.CallExpr); ok {
+			found = true
+		}
+		return !found
+	})
+	return found
+}
+
+// postCallTracks applies `callsite f trackresult g T: e` clauses: ghost g is assigned e after the call, with
+// `result` (result0, result1, ...) bound to what the call returned.
+func (e *Exec) postCallTracks(st *State, fn *types.Func, recv *Val, args []Val, res Val, x *ast.CallExpr) {
+	if x == nil || e.quiet || e.inContract > 0 || st.dead || len(e.frames) == 0 {
+		return
+	}
+	fc := e.frames[0].contract
+	if fc == nil {
+		return
+	}
+	pkgPath, key := contractKey(fn)
+	for _, c := range fc.Sites {
+		if c.Kind != "trackresult" || (c.LoopKey != key && c.LoopKey != shortName(pkgPath)+"."+key) {
+			continue
+		}
+		sig := fn.Type().(*types.Signature)
+		extra := map[string]Val{}
+		for i := 0; i < sig.Params().Len() && i < len(args); i++ {
+			if n := sig.Params().At(i).Name(); n != "" && n != "_" {
+				extra["arg_"+n] = args[i]
+			}
+		}
+		if recv != nil {
+			extra["arg_recv"] = *recv
+		}
+		env := e.loopEnv(st, x.Pos(), extra)
+		if sig.Results().Len() > 0 {
+			bindResults(env, sig, res)
+		}
+		e.inContract++
+		v := e.cev(st, c.Expr, env)
+		e.inContract--
+		st.ghosts["g:"+c.Name] = v
+	}
+}
+
+// goSiteChecks: a `go f(args)` statement is a call site of f for call-site clauses (the call itself is not
+// executed: goroutines are outside the sequential model).
+func (e *Exec) goSiteChecks(st *State, call *ast.CallExpr) {
+	info := e.info()
+	var fn *types.Func
+	var recv *Val
+	switch f := ast.Unparen(call.Fun).(type) {
+	case *ast.Ident:
+		fn, _ = info.Uses[f].(*types.Func)
+	case *ast.SelectorExpr:
+		if sel, ok := info.Selections[f]; ok && sel.Kind() == types.MethodVal {
+			fn, _ = sel.Obj().(*types.Func)
+			r := e.ev(st, f.X)
+			recv = &r
+		} else {
+			fn, _ = info.Uses[f.Sel].(*types.Func)
+		}
+	}
+	var args []Val
+	for _, a := range call.Args {
+		args = append(args, e.ev(st, a))
+	}
+	if fn != nil {
+		e.callsiteChecks(st, fn, recv, args, call)
+	}
+}
+
 // closureSiteChecks: `callsite <localFuncVar> name: P` is checked where the function under contract calls one
 // of its local function values by name (and sets the called("<name>") ghost flag).
 func (e *Exec) closureSiteChecks(st *State, varName string, sig *types.Signature, args []Val, x *ast.CallExpr) {
@@ -59,7 +134,7 @@ func (e *Exec) closureSiteChecks(st *State, varName string, sig *types.Signature
 		}
 	}
 	for _, c := range fc.Sites {
-		if c.LoopKey != varName || c.Kind == "track" {
+		if c.LoopKey != varName || c.Kind == "track" || c.Kind == "trackresult" {
 			continue
 		}
 		extra := map[string]Val{}
@@ -77,4 +152,17 @@ func (e *Exec) closureSiteChecks(st *State, varName string, sig *types.Signature
 			o.Clause = c.Src
 		}
 	}
+}
+
+// usesGhost: does any clause of the contract mention the identifier?
+func (fc *FuncContract) usesGhost(name string) bool {
+	has := func(cs []*Clause) bool {
+		for _, c := range cs {
+			if strings.Contains(c.Src, name) {
+				return true
+			}
+		}
+		return false
+	}
+	return has(fc.Requires) || has(fc.Ensures) || has(fc.Invs) || has(fc.Sites)
 }
